@@ -6,9 +6,11 @@ package meta
 // See docs/OPTIMIZATIONS.md for algorithm details and benchmark data.
 
 import (
+	"bytes"
 	"errors"
 	"regexp/syntax"
 	"sync"
+	"unicode/utf8"
 
 	"github.com/coregx/coregex/dfa/lazy"
 	"github.com/coregx/coregex/literal"
@@ -111,6 +113,68 @@ func endsWithUniversalMatch(re *syntax.Regexp) bool {
 	return false
 }
 
+// dotStarLiteralDotStar reports whether a pattern split into prefix and suffix (the
+// inner literal and everything after it) is exactly `.*literal.*`: a greedy .* that
+// excludes '\n' on both sides of one case-sensitive literal without '\n' (capture
+// groups allowed). It returns the literal.
+//
+// For this shape alone a match is known from the position of the literal: it is
+// the part of the literal's line that starts at the search position. `.+lit.*`,
+// `.*lit.*?`, `(?s).*lit.*` and `.*lit[0-9].*` need the automata.
+func dotStarLiteralDotStar(prefix, suffix *syntax.Regexp) ([]byte, bool) {
+	unwrap := func(re *syntax.Regexp) *syntax.Regexp {
+		for re != nil && re.Op == syntax.OpCapture && len(re.Sub) == 1 {
+			re = re.Sub[0]
+		}
+		return re
+	}
+	isDotStar := func(re *syntax.Regexp) bool {
+		re = unwrap(re)
+		return re != nil && re.Op == syntax.OpStar && re.Flags&syntax.NonGreedy == 0 &&
+			len(re.Sub) == 1 && re.Sub[0].Op == syntax.OpAnyCharNotNL
+	}
+	if !isUniversalMatch(prefix) || !endsWithUniversalMatch(suffix) {
+		return nil, false
+	}
+	suffix = unwrap(suffix)
+	if !isDotStar(prefix) || suffix.Op != syntax.OpConcat || len(suffix.Sub) != 2 || !isDotStar(suffix.Sub[1]) {
+		return nil, false
+	}
+	lit := unwrap(suffix.Sub[0])
+	if lit.Op != syntax.OpLiteral || lit.Flags&syntax.FoldCase != 0 || len(lit.Rune) == 0 {
+		return nil, false
+	}
+	for _, r := range lit.Rune {
+		if r == '\n' || !utf8.ValidRune(r) {
+			return nil, false
+		}
+	}
+	return []byte(string(lit.Rune)), true
+}
+
+// isASCIIClassLoop reports whether re is an unbounded repetition of an ASCII-only
+// character class (`[a-z]+`, `[\w.+-]*`, `[0-9]{2,}`), possibly inside capture groups.
+// The automaton of such an expression consumes one byte per iteration.
+func isASCIIClassLoop(re *syntax.Regexp) bool {
+	for re != nil && re.Op == syntax.OpCapture && len(re.Sub) == 1 {
+		re = re.Sub[0]
+	}
+	if re == nil || len(re.Sub) != 1 || re.Sub[0].Op != syntax.OpCharClass {
+		return false
+	}
+	switch re.Op {
+	case syntax.OpStar, syntax.OpPlus:
+	case syntax.OpRepeat:
+		if re.Max != -1 {
+			return false
+		}
+	default:
+		return false
+	}
+	class := re.Sub[0].Rune
+	return len(class) > 0 && class[len(class)-1] < utf8.RuneSelf
+}
+
 // ErrNoInnerLiterals indicates that no inner literals could be extracted for ReverseInner strategy.
 // This is not a fatal error - it just means ReverseInner optimization cannot be used.
 var ErrNoInnerLiterals = errors.New("no inner literals available for ReverseInner strategy")
@@ -122,15 +186,28 @@ var ErrNoInnerLiterals = errors.New("no inner literals available for ReverseInne
 //   - Has wildcards/repetitions both BEFORE and AFTER the inner literal
 //   - Can use bidirectional DFA to find exact match bounds
 //
-// Algorithm:
-//  1. Extract inner literals from pattern
-//  2. Build prefilter for inner literals
-//  3. Search algorithm:
-//     a. Prefilter finds inner literal candidates in haystack
-//     b. For each candidate at position P:
-//     - Reverse DFA scans backward from P to find match START
-//     - Forward DFA scans forward from P+innerLen to find match END
-//     c. Return leftmost-longest match
+// The pattern is split at the inner literal into PREFIX and SUFFIX (the literal
+// and everything after it). A match is PREFIX on haystack[start:pos] followed by
+// SUFFIX on haystack[pos:end] for some occurrence pos of the inner literal.
+//
+// Algorithm (see findCandidate and findIndicesAtImpl):
+//  1. The prefilter finds the inner literal candidates left to right.
+//  2. For each candidate at position pos:
+//     - the reverse DFA of PREFIX, anchored at pos, finds the leftmost position
+//     from which PREFIX reaches pos;
+//     - the forward DFA of the whole pattern, ANCHORED at that position, decides
+//     whether a match starts there (if SUFFIX matches at pos, one does).
+//     A candidate that fails either test is the inner literal of no match.
+//  3. The first confirmed candidate proves that a match exists, that it starts at
+//     or before the position found in step 2, and that it does not lie before the
+//     candidate. The exact leftmost-first bounds come from the DFAs of the whole
+//     pattern (searchSpan); for the common pattern shapes the position of step 2 is
+//     the match start and the forward scan of step 2 already gave the match end.
+//
+// Anti-quadratic guards (Rust regex-automata: meta/reverse_inner.rs): the reverse
+// scans never re-enter the region before the previous candidate (minMatchStart),
+// and when a failed forward scan ran past the next candidate (stop-at), a single
+// forward search replaces the candidate loop. Total work is O(n).
 //
 // Performance:
 //   - Forward search: O(n*m) where n=haystack length, m=pattern length
@@ -144,26 +221,30 @@ var ErrNoInnerLiterals = errors.New("no inner literals available for ReverseInne
 //	// ReverseInner: prefilter finds 5 "connection" positions, bidirectional DFA verifies (~5 attempts)
 //	// Speedup: ~200,000x
 type ReverseInnerSearcher struct {
-	forwardNFA      *nfa.NFA
-	reverseNFA      *nfa.NFA
-	reverseDFA      *lazy.DFA
-	forwardDFA      *lazy.DFA
-	prefilter       prefilter.Prefilter
-	pikevm          *nfa.PikeVM
-	innerLen        int  // Length of the inner literal for calculating positions
-	universalPrefix bool // True if prefix is .* (matches everything from start)
-	universalSuffix bool // True if suffix ends with .* (matches everything to end)
-	startAnchored   bool // True if prefix only contains start anchors (^, ^+, etc.)
-	fwdCachePool    sync.Pool
-	revCachePool    sync.Pool
+	forwardNFA     *nfa.NFA
+	reverseNFA     *nfa.NFA
+	reverseDFA     *lazy.DFA // reverse DFA of the PREFIX portion
+	forwardDFA     *lazy.DFA // forward DFA of the WHOLE pattern
+	fullReverseDFA *lazy.DFA // reverse DFA of the WHOLE pattern (match start from match end)
+	prefilter      prefilter.Prefilter
+	pikevm         *nfa.PikeVM
+	innerLen       int    // Length of the inner literal for calculating positions
+	dotStarLiteral []byte // Not nil if the pattern is exactly `.*literal.*`: the literal (no DFA needed)
+	prefixNullable bool   // True if the prefix portion matches the empty string
+	startAnchored  bool   // True if prefix only contains start anchors (^, ^+, etc.): empty at position 0 only
+	exactStart     bool   // True if the leftmost prefix start of a confirmed candidate is the match start
+	lineBounded    bool   // True if no match can contain '\n' (see SetLineBounded)
+	fwdCachePool   sync.Pool
+	revCachePool   sync.Pool
+	fullRevPool    sync.Pool
 }
 
 // NewReverseInnerSearcher creates a reverse inner searcher using AST splitting.
 //
 // The key optimization (from rust-regex):
 //   - Build reverse NFA from PREFIX AST only (not full pattern)
-//   - Build forward NFA from SUFFIX AST only (not full pattern)
-//   - This enables true bidirectional search with 10-100x speedup
+//   - Verify candidates with the forward DFA of the full pattern, anchored at the
+//     position the reverse search found
 //
 // Requirements:
 //   - InnerLiteralInfo must have PrefixAST and SuffixAST populated
@@ -171,7 +252,7 @@ type ReverseInnerSearcher struct {
 //   - Prefilter must be available
 //
 // Parameters:
-//   - fullNFA: the compiled NFA for the full pattern (for fallback)
+//   - fullNFA: the compiled NFA for the full pattern
 //   - innerInfo: extracted inner literal info with split AST
 //   - config: DFA configuration for reverse/forward DFA cache
 //
@@ -233,24 +314,18 @@ func NewReverseInnerSearcher(
 		return nil, err
 	}
 
-	// Build forward NFA from SUFFIX AST (includes inner + everything after)
-	var suffixNFA *nfa.NFA
-	if innerInfo.SuffixAST != nil {
-		compiler := nfa.NewCompiler(nfa.CompilerConfig{
-			UTF8:     true,
-			Anchored: false,
-		})
-		suffixNFA, err = compiler.CompileRegexp(innerInfo.SuffixAST)
-		if err != nil {
-			return nil, err
-		}
-	} else {
-		// Fallback to full pattern if no suffix AST
-		suffixNFA = fullNFA
+	// Build forward DFA from the full NFA. A candidate is verified from the start
+	// of the PREFIX portion, not from the inner literal: the DFA of the suffix
+	// portion alone could confirm the candidate, but only the whole pattern knows
+	// where the leftmost-first match ends (in `.+@[a-z]+` on "a@b@c" the greedy
+	// prefix runs to the LAST '@').
+	forwardDFA, err := lazy.CompileWithConfig(fullNFA, config)
+	if err != nil {
+		return nil, err
 	}
 
-	// Build forward DFA from suffix NFA
-	forwardDFA, err := lazy.CompileWithConfig(suffixNFA, config)
+	// Build reverse DFA from the full NFA: match start for a known match end
+	fullReverseDFA, err := lazy.CompileWithConfig(nfa.Reverse(fullNFA), revConfig)
 	if err != nil {
 		return nil, err
 	}
@@ -258,26 +333,29 @@ func NewReverseInnerSearcher(
 	// Create PikeVM for fallback (uses full pattern)
 	pikevm := nfa.NewPikeVM(fullNFA)
 
-	// Detect universal prefix/suffix for Find optimization
-	// For patterns like `.*connection.*`:
-	//   - universalPrefix: .* prefix means match always starts at 0
-	//   - universalSuffix: .* suffix means match always ends at len(haystack)
-	universalPrefix := isUniversalMatch(innerInfo.PrefixAST)
-	universalSuffix := endsWithUniversalMatch(innerInfo.SuffixAST)
-	// Check if prefix is only start anchors (^, ^+, etc.) - trivially matches at position 0
-	startAnchored := isStartAnchorOnly(innerInfo.PrefixAST)
+	// Does the prefix portion match the empty string? Then an inner literal right
+	// at the search position is a candidate too (there is nothing to scan backward).
+	_, _, prefixNullable := nfa.NewPikeVM(prefixNFA).Search(nil)
 
 	s := &ReverseInnerSearcher{
-		forwardNFA:      suffixNFA,
-		reverseNFA:      reverseNFA,
-		reverseDFA:      reverseDFA,
-		forwardDFA:      forwardDFA,
-		prefilter:       pre,
-		pikevm:          pikevm,
-		innerLen:        innerLen,
-		universalPrefix: universalPrefix,
-		universalSuffix: universalSuffix,
-		startAnchored:   startAnchored,
+		forwardNFA:     fullNFA,
+		reverseNFA:     reverseNFA,
+		reverseDFA:     reverseDFA,
+		forwardDFA:     forwardDFA,
+		fullReverseDFA: fullReverseDFA,
+		prefilter:      pre,
+		pikevm:         pikevm,
+		innerLen:       innerLen,
+		prefixNullable: prefixNullable,
+		startAnchored:  isStartAnchorOnly(innerInfo.PrefixAST),
+		// An ASCII class loop [c]+ as the whole prefix: the reverse scan stops at the
+		// first byte outside the class, and no match can start before that byte and
+		// run over it (its own prefix portion would have to contain the byte).
+		exactStart: isASCIIClassLoop(innerInfo.PrefixAST),
+	}
+	// Patterns like `.*connection.*` are decided by the position of the literal alone
+	if lit, ok := dotStarLiteralDotStar(innerInfo.PrefixAST, innerInfo.SuffixAST); ok {
+		s.dotStarLiteral = lit
 	}
 	s.fwdCachePool = sync.Pool{
 		New: func() any { return s.forwardDFA.NewCache() },
@@ -285,133 +363,43 @@ func NewReverseInnerSearcher(
 	s.revCachePool = sync.Pool{
 		New: func() any { return s.reverseDFA.NewCache() },
 	}
+	s.fullRevPool = sync.Pool{
+		New: func() any { return s.fullReverseDFA.NewCache() },
+	}
 	return s, nil
 }
 
-// Find searches using inner literal prefilter + bidirectional DFA and returns the match.
-//
-// Algorithm (leftmost-longest/greedy semantics):
-//  1. Use prefilter to find ALL inner literal candidates
-//  2. For each candidate at position P:
-//     a. Reverse DFA scans backward from P to find match START
-//     b. Forward DFA scans forward from P+innerLen to find match END
-//  3. Track leftmost-longest match:
-//     - Leftmost: earliest start position
-//     - Longest: if same start, choose longest end
-//  4. Return the best match found
-//
-// Performance:
-//   - ZERO PikeVM calls - uses DFA exclusively
-//   - Bidirectional DFA scan finds both match start and end efficiently
-//   - Prefilter reduces search space dramatically
+// SetLineBounded tells the searcher that no match of the pattern can contain '\n'
+// (the pattern has no literal, class or (?s:.) that matches it). A match that
+// starts on one line then ends on the same line, so once the first line holding a
+// confirmed candidate is known the search for the match start can be confined to
+// that line.
+func (s *ReverseInnerSearcher) SetLineBounded(lineBounded bool) {
+	s.lineBounded = lineBounded
+}
+
+// Find searches using inner literal prefilter + bidirectional DFA and returns the
+// leftmost match, see FindIndicesAt.
 //
 // Example (bidirectional matching):
 //
-//	Pattern: `ERROR.*connection.*timeout`
-//	Haystack: "ERROR: connection lost due to connection timeout"
+//	Pattern: `[a-z]+connection[0-9]+`
+//	Haystack: "aconnectionb xconnection1"
 //	Inner literal: "connection"
 //
-//	1. Prefilter finds "connection" at position 7, then at position 32
-//	2. Candidate 1 (pos=7):
-//	   a. Reverse DFA from pos=7 backward → finds start=0 (ERROR)
-//	   b. Forward DFA from pos=17 forward → finds end=24 (lost, no timeout)
-//	   c. No valid match (pattern requires "timeout" after)
-//	3. Candidate 2 (pos=32):
-//	   a. Reverse DFA from pos=32 backward → finds start=0 (ERROR)
-//	   b. Forward DFA from pos=42 forward → finds end=49 (timeout)
-//	   c. Valid match [0:49]
-//	4. Return [0:49] = "ERROR: connection lost due to connection timeout"
+//	1. Candidate 1 (pos=1):
+//	   a. Reverse DFA of `[a-z]+` from pos=1 backward → start=0
+//	   b. Forward DFA anchored at 0 → no match ('b' is not a digit)
+//	2. Candidate 2 (pos=14):
+//	   a. Reverse DFA from pos=14 backward → start=13 (stops at the space)
+//	   b. Forward DFA anchored at 13 → end=25
+//	3. Return [13:25] = "xconnection1"
 func (s *ReverseInnerSearcher) Find(haystack []byte) *Match {
-	if len(haystack) == 0 {
+	start, end, found := s.FindIndicesAt(haystack, 0)
+	if !found {
 		return nil
 	}
-
-	// UNIVERSAL MATCH OPTIMIZATION:
-	// For patterns like `.*connection.*` where both prefix and suffix are universal (.*):
-	//   - Match start is ALWAYS 0 (because .* matches any prefix from start)
-	//   - Match end is ALWAYS len(haystack) (because .* matches any suffix to end)
-	// We can skip expensive DFA scans and just verify with fast IsMatch.
-	// This reduces Find from O(n) DFA scan to O(1) for common patterns!
-	if s.universalPrefix && s.universalSuffix {
-		if s.IsMatch(haystack) {
-			return NewMatch(0, len(haystack), haystack)
-		}
-		return nil
-	}
-
-	// EARLY RETURN OPTIMIZATION (from rust-regex):
-	// The prefilter finds candidates in left-to-right order.
-	// The first confirmed match is guaranteed to be the leftmost match.
-	// The forward DFA handles the "longest" part of leftmost-longest semantics.
-	// Therefore, we can return immediately on first confirmed match!
-
-	searchStart := 0
-	minMatchStart := 0 // Anti-quadratic guard for reverse scan
-
-	// Acquire caches once for the entire candidate loop
-	revCache := s.revCachePool.Get().(*lazy.DFACache)
-	fwdCache := s.fwdCachePool.Get().(*lazy.DFACache)
-	defer s.revCachePool.Put(revCache)
-	defer s.fwdCachePool.Put(fwdCache)
-
-	for {
-		// Find next inner literal candidate
-		pos := s.prefilter.Find(haystack, searchStart)
-		if pos == -1 {
-			// No more candidates
-			break
-		}
-
-		// Step 1: Reverse search on PREFIX portion with anti-quadratic guard
-		// Check if we can reach this inner literal from an earlier position.
-		// Use minMatchStart to avoid re-scanning regions already proven to have no match.
-		matchStart := s.reverseDFA.SearchReverseLimited(revCache, haystack, 0, pos, minMatchStart)
-		if matchStart == lazy.SearchReverseLimitedQuadratic {
-			// Reverse scan hit the anti-quadratic guard - fall back to PikeVM
-			start, end, found := s.pikevm.Search(haystack)
-			if found {
-				return NewMatch(start, end, haystack)
-			}
-			return nil
-		}
-		if matchStart < 0 {
-			// Prefix doesn't match - try next candidate.
-			// Anti-quadratic guard (same as IsMatch): the next reverse scan must
-			// die before it re-enters the region this one has covered.
-			if pos+s.innerLen > minMatchStart {
-				minMatchStart = pos + s.innerLen
-			}
-			searchStart = pos + 1
-			if searchStart >= len(haystack) {
-				break
-			}
-			continue
-		}
-
-		// Step 2: Forward search on SUFFIX portion
-		// Find the end of the match (forward DFA finds longest match = greedy)
-		suffixHaystack := haystack[pos:]
-		matchEndRel := s.forwardDFA.Find(fwdCache, suffixHaystack)
-		if matchEndRel < 0 {
-			// The forward search is unanchored and ran to the end of the haystack:
-			// the suffix portion matches nowhere from pos on, so no later candidate
-			// can be confirmed either. Scanning the tail again for each of them
-			// would be O(n^2); let the PikeVM fallback below decide.
-			break
-		}
-
-		// EARLY RETURN: First confirmed match is leftmost by construction!
-		// Forward DFA already finds the longest match from this start position.
-		matchEnd := pos + matchEndRel
-		return NewMatch(matchStart, matchEnd, haystack)
-	}
-
-	// Fallback: use PikeVM if no DFA match found
-	start, end, found := s.pikevm.Search(haystack)
-	if found {
-		return NewMatch(start, end, haystack)
-	}
-	return nil
+	return NewMatch(start, end, haystack)
 }
 
 // IsMatch checks if the pattern matches using inner prefilter + bidirectional DFA.
@@ -420,15 +408,8 @@ func (s *ReverseInnerSearcher) Find(haystack []byte) *Match {
 //   - Uses prefilter for fast candidate finding
 //   - Uses bidirectional DFA for fast verification
 //   - No Match object allocation
-//   - Early termination on first match
-//   - Anti-quadratic guard: tracks minStart to avoid re-scanning already-checked regions
-//
-// Algorithm:
-//  1. Prefilter finds inner literal candidates
-//  2. For each candidate:
-//     a. Reverse DFA checks if we can reach inner from start (with anti-quadratic guard)
-//     b. Forward DFA checks if we can reach end from inner
-//  3. Return true on first valid match
+//   - Early termination on the first confirmed candidate
+//   - Anti-quadratic guards, see findCandidate
 func (s *ReverseInnerSearcher) IsMatch(haystack []byte) bool {
 	if len(haystack) == 0 {
 		return false
@@ -440,58 +421,12 @@ func (s *ReverseInnerSearcher) IsMatch(haystack []byte) bool {
 	defer s.revCachePool.Put(revCache)
 	defer s.fwdCachePool.Put(fwdCache)
 
-	// Use prefilter to find inner literal candidates
-	searchStart := 0
-	minStart := 0 // Anti-quadratic guard for reverse scans
-	for {
-		// Find next inner literal candidate
-		pos := s.prefilter.Find(haystack, searchStart)
-		if pos == -1 {
-			// No more candidates
-			return false
-		}
-
-		// BIDIRECTIONAL VERIFICATION:
-		//
-		// Step 1: Check if prefix matches (reverse DFA with anti-quadratic guard)
-		// Special cases for pos=0:
-		//   - universalPrefix (.*): trivially matches empty prefix
-		//   - startAnchored (^, ^+): trivially matches at position 0
-		prefixMatches := false
-		if pos == 0 && (s.universalPrefix || s.startAnchored) {
-			// Universal prefix (.*) or start anchor (^) matches at position 0
-			prefixMatches = true
-		} else if pos > 0 {
-			// Use SearchReverseLimited for anti-quadratic protection
-			revResult := s.reverseDFA.SearchReverseLimited(revCache, haystack, 0, pos, minStart)
-			if revResult == lazy.SearchReverseLimitedQuadratic {
-				// Quadratic behavior detected - fall back to PikeVM
-				_, _, matched := s.pikevm.Search(haystack)
-				return matched
-			}
-			prefixMatches = revResult >= 0
-		}
-
-		if prefixMatches {
-			// Step 2: Check if suffix matches (forward DFA from inner position)
-			suffixHaystack := haystack[pos:]
-			if s.forwardDFA.IsMatch(fwdCache, suffixHaystack) {
-				// Both prefix and suffix match - pattern matches!
-				return true
-			}
-		}
-
-		// Update anti-quadratic guard: don't re-scan before this position
-		if pos+s.innerLen > minStart {
-			minStart = pos + s.innerLen
-		}
-
-		// Try next candidate
-		searchStart = pos + 1
-		if searchStart >= len(haystack) {
-			return false
-		}
+	pos, _, _, _ := s.findCandidate(haystack, 0, fwdCache, revCache, true)
+	if pos == candidateGiveUp {
+		// Quadratic behavior detected - one forward search decides
+		return s.forwardDFA.IsMatchAt(fwdCache, haystack, 0)
 	}
+	return pos >= 0
 }
 
 // FindIndicesAt returns match indices starting from position 'at' - zero allocation version.
@@ -515,70 +450,155 @@ func (s *ReverseInnerSearcher) FindIndicesAtWithCaches(haystack []byte, at int, 
 	return s.findIndicesAtImpl(haystack, at, fwdCache, revCache)
 }
 
-// findIndicesAtImpl is the shared implementation for FindIndicesAt and FindIndicesAtWithCaches.
-func (s *ReverseInnerSearcher) findIndicesAtImpl(haystack []byte, at int, fwdCache, revCache *lazy.DFACache) (start, end int, found bool) {
+// Results of findCandidate that are not candidate positions.
+const (
+	candidateNone   = -1 // no candidate is the inner literal of a match
+	candidateGiveUp = -2 // anti-quadratic guard: decide with one forward search from 'at'
+)
+
+// findCandidate returns the first inner literal occurrence at or after 'at' that
+// is the inner literal of a match starting at or after 'at':
+//
+//	pos:        where the occurrence starts (or candidateNone, candidateGiveUp)
+//	matchStart: the leftmost position from which the prefix portion reaches pos;
+//	            a match starts there
+//	matchEnd:   where the leftmost-first match starting at matchStart ends
+//
+// No occurrence before pos is the inner literal of a match, so every match that
+// starts at or after 'at' contains haystack[pos].
+//
+// With earliest set the caller only wants to know whether a match exists:
+// matchEnd is not computed and the forward scans stop at the first match end.
+func (s *ReverseInnerSearcher) findCandidate(haystack []byte, at int, fwdCache, revCache *lazy.DFACache, earliest bool) (pos, matchStart, matchEnd int, shape bool) {
 	if at >= len(haystack) {
-		return -1, -1, false
+		return candidateNone, -1, -1, false
 	}
 
-	// UNIVERSAL MATCH OPTIMIZATION:
-	// For patterns like `.*connection.*` where both prefix and suffix are universal (.*)
-	if s.universalPrefix && s.universalSuffix {
-		// Just check if there's an inner literal anywhere from 'at'
-		pos := s.prefilter.Find(haystack, at)
-		if pos >= 0 {
-			// For universal prefix/suffix, match spans from 'at' to end
-			return at, len(haystack), true
-		}
-		return -1, -1, false
-	}
-
-	// Search for inner literal starting from 'at'
 	searchStart := at
 	minMatchStart := at // Anti-quadratic guard for reverse scans
+	minPreStart := at   // Anti-quadratic guard for forward scans (stop-at)
 	for {
 		// Find next inner literal candidate
-		pos := s.prefilter.Find(haystack, searchStart)
+		pos = s.prefilter.Find(haystack, searchStart)
 		if pos == -1 {
-			break
+			return candidateNone, -1, -1, false
 		}
 
-		// Step 1: Reverse search on PREFIX portion with anti-quadratic guard
-		// Use minMatchStart to avoid re-scanning regions already checked
-		matchStart := s.reverseDFA.SearchReverseLimited(revCache, haystack, at, pos, minMatchStart)
-		if matchStart == lazy.SearchReverseLimitedQuadratic {
-			// Quadratic behavior detected - fall back to PikeVM
-			return s.pikevm.SearchAt(haystack, at)
-		}
-		if matchStart < 0 || matchStart < at {
-			// Prefix doesn't match or match starts before 'at' - try next candidate.
-			// Anti-quadratic guard: the next reverse scan must die before it
-			// re-enters the region this one has covered.
-			if pos+s.innerLen > minMatchStart {
-				minMatchStart = pos + s.innerLen
+		if s.dotStarLiteral != nil {
+			// `.*literal.*`: the literal's line, from 'at' on, is the match
+			if bytes.HasPrefix(haystack[pos:], s.dotStarLiteral) {
+				return pos, lineStartBefore(haystack, at, pos), -1, true
 			}
 			searchStart = pos + 1
-			if searchStart >= len(haystack) {
-				break
-			}
 			continue
 		}
 
-		// Step 2: Forward search on SUFFIX portion
-		suffixHaystack := haystack[pos:]
-		matchEndRel := s.forwardDFA.Find(fwdCache, suffixHaystack)
-		if matchEndRel < 0 {
-			// Unanchored forward search failed up to the end of the haystack: no
-			// later candidate can be confirmed. Do not rescan the tail for each
-			// of them (O(n^2)); the PikeVM fallback below decides.
-			break
+		if pos < minPreStart {
+			// A failed forward scan already ran past this candidate: verifying it
+			// (and the following ones) would read the same bytes again and again.
+			return candidateGiveUp, -1, -1, false
 		}
 
-		// Found valid match
-		matchEnd := pos + matchEndRel
-		return matchStart, matchEnd, true
+		// Step 1: Reverse search on PREFIX portion with anti-quadratic guard.
+		// Use minMatchStart to avoid re-scanning regions already proven to have no match.
+		if pos > at {
+			matchStart = s.reverseDFA.SearchReverseLimited(revCache, haystack, at, pos, minMatchStart)
+			if matchStart == lazy.SearchReverseLimitedQuadratic {
+				return candidateGiveUp, -1, -1, false
+			}
+		} else if s.prefixNullable && (at == 0 || !s.startAnchored) {
+			matchStart = at // Nothing to scan: the prefix portion matches the empty string
+		} else {
+			matchStart = -1
+		}
+
+		if matchStart >= 0 && earliest {
+			// Step 2 for IsMatch: any match from matchStart on will do. If there is
+			// none, only a match that starts before matchStart is left to look for.
+			if s.forwardDFA.IsMatchAt(fwdCache, haystack, matchStart) {
+				return pos, matchStart, -1, false
+			}
+			return candidateGiveUp, -1, -1, false
+		}
+		if matchStart >= 0 {
+			// Step 2: Forward search of the whole pattern, anchored at the prefix
+			// start. If the suffix portion matches at pos, a match starts at
+			// matchStart (prefix portion up to pos, then the suffix portion), so a
+			// failure here rules the candidate out.
+			var stop int
+			matchEnd, stop = s.forwardDFA.SearchAtAnchoredStopAt(fwdCache, haystack, matchStart)
+			if matchEnd >= 0 {
+				return pos, matchStart, matchEnd, false
+			}
+			minPreStart = stop
+		}
+
+		// This candidate is the inner literal of no match - try the next one.
+		// Anti-quadratic guard: the next reverse scan must die before it
+		// re-enters the region this one has covered.
+		if pos+s.innerLen > minMatchStart {
+			minMatchStart = pos + s.innerLen
+		}
+		searchStart = pos + 1
+		if searchStart >= len(haystack) {
+			return candidateNone, -1, -1, false
+		}
+	}
+}
+
+// findIndicesAtImpl is the shared implementation of Find, FindIndicesAt and
+// FindIndicesAtWithCaches. It returns the leftmost-first match starting at or
+// after 'at', like every other engine.
+func (s *ReverseInnerSearcher) findIndicesAtImpl(haystack []byte, at int, fwdCache, revCache *lazy.DFACache) (start, end int, found bool) {
+	pos, matchStart, matchEnd, shape := s.findCandidate(haystack, at, fwdCache, revCache, false)
+	switch {
+	case pos == candidateNone:
+		return -1, -1, false
+	case pos == candidateGiveUp:
+		// Quadratic behavior detected - one forward search decides the whole query
+		return s.searchSpan(haystack, at, fwdCache)
+	case shape:
+		// `.*literal.*`: from the start of the literal's line to its end
+		end = len(haystack)
+		if nl := bytes.IndexByte(haystack[pos:], '\n'); nl != -1 {
+			end = pos + nl
+		}
+		return matchStart, end, true
 	}
 
-	// Fallback to PikeVM
-	return s.pikevm.SearchAt(haystack, at)
+	// A match starts at matchStart and every match contains haystack[pos]: the
+	// leftmost match starts in [at, matchStart]. A match that cannot contain '\n'
+	// starts after the last '\n' before pos.
+	from := at
+	if s.lineBounded {
+		from = lineStartBefore(haystack, at, pos)
+	}
+	if s.exactStart || from == matchStart {
+		// matchStart is the leftmost match start, and the anchored forward scan that
+		// confirmed the candidate found the leftmost-first match end for it.
+		return matchStart, matchEnd, true
+	}
+	return s.searchSpan(haystack, from, fwdCache)
+}
+
+// searchSpan returns the leftmost-first match that starts at or after 'from',
+// using the DFAs of the whole pattern: the unanchored forward DFA finds where the
+// leftmost-first match ends (greedy and lazy quantifiers honoured), the reverse
+// DFA anchored at that end finds where it starts.
+func (s *ReverseInnerSearcher) searchSpan(haystack []byte, from int, fwdCache *lazy.DFACache) (start, end int, found bool) {
+	end = s.forwardDFA.SearchAt(fwdCache, haystack, from)
+	if end < 0 {
+		return -1, -1, false
+	}
+	if end == from {
+		return from, end, true
+	}
+	fullRevCache := s.fullRevPool.Get().(*lazy.DFACache)
+	start = s.fullReverseDFA.SearchReverse(fullRevCache, haystack, from, end)
+	s.fullRevPool.Put(fullRevCache)
+	if start < 0 {
+		// The reverse DFA gave up (cache limits) - fall back to PikeVM
+		return s.pikevm.SearchAt(haystack, from)
+	}
+	return start, end, true
 }
